@@ -29,6 +29,9 @@ type DistributedAllocator struct {
 
 	// Epoch period for lease mode
 	epochPeriod time.Duration
+
+	// Grace epochs before a lease is reclaimed (lease mode)
+	epochGrace uint64
 }
 
 // DistributedStats holds statistics for the distributed allocator.
@@ -144,6 +147,7 @@ func NewDistributedAllocator(cfg DistributedConfig, store Store) (*DistributedAl
 			return nil, fmt.Errorf("create epoch allocator: %w", err)
 		}
 		da.epochAllocator = epochAlloc
+		da.epochGrace = grace
 
 	default:
 		// Use standard IP allocator for session mode (no expiry)
@@ -429,7 +433,12 @@ func (da *DistributedAllocator) cleanupExpiredFromStore(ctx context.Context, cur
 		return
 	}
 
-	threshold := currentEpoch - 2 // Match epoch allocator's grace period logic
+	// Match the epoch allocator: a lease is reclaimed locally once it is more
+	// than the grace period behind the current epoch.
+	grace := da.epochGrace
+	if grace == 0 {
+		grace = 1
+	}
 
 	results, err := da.store.Query(ctx, da.keyPrefix())
 	if err != nil {
@@ -442,7 +451,7 @@ func (da *DistributedAllocator) cleanupExpiredFromStore(ctx context.Context, cur
 			continue
 		}
 
-		if alloc.Epoch < threshold {
+		if alloc.Epoch+grace < currentEpoch {
 			// Remove from store (local allocator already handles this lazily)
 			da.store.Delete(ctx, da.allocationKey(alloc.SubscriberID))
 		}
